@@ -328,7 +328,7 @@ PROPS["C16"] = {
 PROPS["C17"] = {
     "pkg": "c17",
     "variants": [
-        {"name": "bubble", "synctest": True, "kinds": ["c17.once-bubble", "c17.sema-bubble", "c17.sema-burst", "c17.hot-key", "c17.typed", "c17.panic"]},
+        {"name": "bubble", "synctest": True, "kinds": ["c17.once-bubble", "c17.sema-bubble", "c17.sema-burst", "c17.hot-key", "c17.typed", "c17.panic", "c17.anykey"]},
         {"name": "stress", "race": True, "kinds": ["c17.once-stress", "c17.sema-stress", "c17.release-storm"], "shards": {"thorough": 8}},
     ],
     "technique": "generated concurrent programs: (1) harness-gated scripts inside a testing/synctest bubble with exact quiescence and virtual time, (2) barrier-start real-thread stress under the race detector; call-count, result-identity, progress and holder-count invariants",
@@ -507,6 +507,22 @@ _ADD12 = {
     "C19": " The context passed to Handle may be cancelled, expired or value-carrying.",
     "C20": " The base logger's handler may wipe or rewrite the attribute slice it is given in WithAttrs (slog lets it own the slice).",
 }
+_ADD13 = {
+    "C03": " Names include IP literals followed by a dotted zone tail.",
+    "C06": " Arithmetic neighbours: the leading 32/64-bit word of a listed base moved by a small amount, following 32-bit words tied by sum-2^32, equal, complement and off-by-one relations.",
+    "C09": " The shared value buffer of the numeric-corner kind is 5 GiB (never touched), so single elements of 2^32 bytes and more occur.",
+    "C10": " Configuration 4 is an LRU bounded by both MaxCount and MaxSize with a yielding OnDelete and padded values of different sizes; Size <= MaxSize is asserted in every Stats snapshot and at quiescence.",
+    "C11": " Thorough tier, 32-bit variant: ring buffers of 2^30+8 and 3*2^29 zero-size slots, full and wrapped, with a count-based oracle.",
+    "C13": " Split inputs include runs of 255..600 separators or blank pieces.",
+    "C14": " URL pieces include the JSON words null/true/false.",
+    "C15": " A far-limit kind writes gigabytes through one TruncatedWriter with limits around 2^31 and 2^32 into a writer that only counts and checks slice identity.",
+    "C17": " An interface-key kind mixes unhashable keys (whose panic the caller recovers) with ordinary ones; every other key must still be constructed once and not block.",
+    "C18": " Services may return a typed-nil error value.",
+    "C19": " Records may have a plain copy that was extended without Clone before they are handled.",
+}
+for _pid, _lt in _ADD13.items():
+    PROPS[_pid]["level_text"] += _lt
+
 for _pid, _lt in _ADD12.items():
     PROPS[_pid]["level_text"] += _lt
 
